@@ -104,7 +104,9 @@ def run_agent(case):
         shared["n"] = len(agents)
         return shared
     comp = {"absent": None, "none": lambda agents: None, "empty": lambda agents: {},
-            "count": lambda agents: {"n": len(agents)}, "shared": refresh}[comp_kind]
+            "count": lambda agents: {"n": len(agents)}, "shared": refresh,
+            # composite data whose VALUES may be None / 0 / empty ("nobody is richest"): data all the same
+            "nullable": lambda agents: {"n": len(agents), "top": None, "zero": 0, "blank": ""}}[comp_kind]
     kw = {"start": int(win["start"]), "frequency": max(1, int(win["freq"]))}
     if win.get("end") is not None:
         kw["end"] = int(win["end"])
@@ -157,8 +159,10 @@ def run_agent(case):
                     rec[aid] = v
                 else:
                     yielding_nothing = True
-            if comp_kind in ("count", "shared"):
+            if comp_kind in ("count", "shared", "nullable"):
                 rec["n"] = len(view)
+            if comp_kind == "nullable":
+                rec.update({"top": None, "zero": 0, "blank": ""})
             if rec:
                 expected.append(rec)
         got = coll.records
@@ -309,7 +313,7 @@ def strategy(tier):
     sched = st.dictionaries(st.integers(0, 9).map(str), st.lists(pop_op, min_size=1, max_size=3), max_size=5)
     agent = st.fixed_dictionaries({
         "kind": st.just("agent"), "init": st.lists(st.builds(lambda v: {"op": "join", "val": v}, val), max_size=4),
-        "between": sched, "during": sched, "composite": st.sampled_from(["absent", "absent", "none", "empty", "count", "shared", "shared"]),
+        "between": sched, "during": sched, "composite": st.sampled_from(["absent", "absent", "none", "empty", "count", "shared", "shared", "nullable", "nullable"]),
         "include_ts": st.booleans(), "window": win, "prio": st.sampled_from(["default", "default", "default", "explicit-high"]),
         "steps": st.integers(1, 12), "positional": st.sampled_from([False, False, True])})
     filec = st.fixed_dictionaries({
